@@ -49,7 +49,11 @@ impl SuperficialLossInfo {
     ) -> GreaterEqualZeroDecimal {
         let zero = GreaterEqualZeroDecimal::zero();
         let mut total = GreaterEqualZeroDecimal::zero();
-        for af in &self.buying_affiliates {
+        // A sum of rounded decimals: add the affiliates in a fixed (sorted)
+        // order rather than in the set's per-run iteration order.
+        let mut sorted_afs: Vec<&Affiliate> = self.buying_affiliates.iter().collect();
+        sorted_afs.sort_by(|a, b| a.id().cmp(b.id()));
+        for af in sorted_afs {
             total +=
                 *self.active_affiliate_spladj_shares_at_eop.get(af).unwrap_or(&zero);
         }
